@@ -137,3 +137,63 @@ Check (C12_update_old_vector_reduces :
      Collision (fun x => f_of_okm (SO E) (expand E x (c_api_id (cs E) ++ c_h2s (cs E)) 48))
                (dom_input E pk Q1 H header (c_api_id (cs E))) (dom_input E pk Q1 H header (c_api_id (cs E))))).
 Print Assumptions C12_update_old_vector_reduces.
+
+(* two signatures with the same exponent that verify for the same key, vector and header have the same point *)
+Theorem C12_verify_same_e_same_A :
+  forall (E : env) (LW : Laws E) sk header msgs s1 s2,
+  verify E s1 (sk_to_pk E sk) (Some msgs) header = Ok tt ->
+  verify E s2 (sk_to_pk E sk) (Some msgs) header = Ok tt ->
+  sig_e E s1 = sig_e E s2 ->
+  fadd (SO E) sk (sig_e E s1) <> f0 (SO E) ->
+  sig_A E s1 = sig_A E s2.
+Proof. exact verify_same_e_same_A. Qed.
+Check (C12_verify_same_e_same_A :
+  forall (E : env) (LW : Laws E) sk header msgs s1 s2,
+  verify E s1 (sk_to_pk E sk) (Some msgs) header = Ok tt ->
+  verify E s2 (sk_to_pk E sk) (Some msgs) header = Ok tt ->
+  sig_e E s1 = sig_e E s2 ->
+  fadd (SO E) sk (sig_e E s1) <> f0 (SO E) ->
+  sig_A E s1 = sig_A E s2).
+Print Assumptions C12_verify_same_e_same_A.
+
+(* path independence: two update histories from the same valid signature that end in the same vector end in the same signature *)
+Theorem C12_update_path_independent :
+  forall (E : env) (LW : Laws E) sk header s msgs ups1 ups2 sa ma sb mb,
+  suite_ok E ->
+  verify E s (sk_to_pk E sk) (Some msgs) header = Ok tt ->
+  run_updates E s sk msgs ups1 = Ok (sa, ma) ->
+  run_updates E s sk msgs ups2 = Ok (sb, mb) ->
+  apply_updates msgs ups1 = apply_updates msgs ups2 ->
+  fadd (SO E) sk (sig_e E s) <> f0 (SO E) ->
+  sig_A E sa = sig_A E sb /\ sig_e E sa = sig_e E sb.
+Proof. exact update_path_independent. Qed.
+Check (C12_update_path_independent :
+  forall (E : env) (LW : Laws E) sk header s msgs ups1 ups2 sa ma sb mb,
+  suite_ok E ->
+  verify E s (sk_to_pk E sk) (Some msgs) header = Ok tt ->
+  run_updates E s sk msgs ups1 = Ok (sa, ma) ->
+  run_updates E s sk msgs ups2 = Ok (sb, mb) ->
+  apply_updates msgs ups1 = apply_updates msgs ups2 ->
+  fadd (SO E) sk (sig_e E s) <> f0 (SO E) ->
+  sig_A E sa = sig_A E sb /\ sig_e E sa = sig_e E sb).
+Print Assumptions C12_update_path_independent.
+
+(* undoing: a history that ends in the original vector returns the original signature *)
+Theorem C12_update_undo :
+  forall (E : env) (LW : Laws E) sk header s msgs ups sa ma,
+  suite_ok E ->
+  verify E s (sk_to_pk E sk) (Some msgs) header = Ok tt ->
+  run_updates E s sk msgs ups = Ok (sa, ma) ->
+  apply_updates msgs ups = msgs ->
+  fadd (SO E) sk (sig_e E s) <> f0 (SO E) ->
+  sig_A E sa = sig_A E s /\ sig_e E sa = sig_e E s.
+Proof. exact update_undo. Qed.
+Check (C12_update_undo :
+  forall (E : env) (LW : Laws E) sk header s msgs ups sa ma,
+  suite_ok E ->
+  verify E s (sk_to_pk E sk) (Some msgs) header = Ok tt ->
+  run_updates E s sk msgs ups = Ok (sa, ma) ->
+  apply_updates msgs ups = msgs ->
+  fadd (SO E) sk (sig_e E s) <> f0 (SO E) ->
+  sig_A E sa = sig_A E s /\ sig_e E sa = sig_e E s).
+Print Assumptions C12_update_undo.
